@@ -807,7 +807,7 @@ func init() {
 		Level: "exploration",
 		Rule:  "each run draws fault-free (1/4) or faulty mode, producer batch limit 1-3, response compression on/off, pad size, HTTP timeout, 1-2 client tasks each making 1-2 (thorough: 1-3) calls (exchange / producer / unary, generated scripts with logs, metadata, failing turns and failing inits) through one real HttpClient; in faulty mode each call gets 0-2 response faults at tape-chosen request indices (init, any continuation, cancel) with tape-chosen parameters, sometimes a turn far beyond the client's response limits and a short context deadline; after the first failure the harness keeps calling Exchange/Next/Cancel; the scheduler interleaves the client tasks at woven yields and network yields and advances the clock; distinct = distinct schedule fingerprint; non-trivial = a fault fired, tasks interleaved, or a stream spanned more than two requests",
 		Real:  []string{"vgirpc.HttpClient / HttpClientStream (CallUnary, OpenProducer, OpenExchange, Next, Exchange, Cancel, Close, post, parseIPCStream)", "net/http.Client (timeout, body wrappers)", "vgirpc.HttpServer + Server (stream init/exchange, token sealing, response compression)", "testing/synctest clock"},
-		Stub:  []string{"network (http.RoundTripper calling ServeHTTP; faults; request recorder)", "scripted stream states and handlers", "independent Arrow IPC decoder for the server's answers (arrow-go directly)"},
+		Stub:  []string{"network (http.RoundTripper calling ServeHTTP; faults; request recorder)", "scripted stream states and handlers", "independent Arrow IPC decoder for the server's answers (arrow-go directly)", "the network also applies net/http.Transport's documented replay rule: a request lost on a re-used connection is re-sent when it is replayable and idempotent (GET/HEAD/OPTIONS/TRACE or an Idempotency-Key header)"},
 		Quick: 1000, Thorough: 30000,
 		Warm: warmClient,
 		FaultKinds: []string{clientw.FDrop, clientw.FDropBefore, clientw.FTimeout, clientw.FTimeoutBody, clientw.FTruncBoundary, clientw.FTruncMid,
